@@ -30,6 +30,14 @@ def parse_sem_line(line):
     return {"frontier": parse_result(f["F"]), "exec": parse_result(f["X"]), "trace": tr, "pat_ok": line.endswith("ok=1")}
 
 
+class RejectedAssertion(vlib.CheckError):
+    """a generated, well-typed assertion that the compiler rejects"""
+    def __init__(self, case, stderr):
+        vlib.CheckError.__init__(self, "a generated well-typed assertion does not compile: assert_struct!(v, %s) with v: %s\n%s"
+                                 % (case.get("program_pattern", case["pattern"]), case["type"], stderr))
+        self.case, self.stderr = case, stderr
+
+
 def relayout(text, rng):
     """The same tokens spread over several lines: a line break (and indentation) after some commas and opening delimiters,
     never inside a string / char literal.  Reports must not depend on the layout; entries then sit on different lines, in an
@@ -111,6 +119,16 @@ def run_cases(cases, tag="sem", per_program=120):
     out = e2e.compile_many(progs, run=True, tag=tag)
     for k, o in enumerate(out):
         if not o["compiled"]:
+            # which assertion is it?  every case of the program on its own (the generator's programs all compile on the tree the
+            # generator was developed against: an assertion that no longer compiles is a finding, not a crash of the check)
+            group = cases[k * per_program:(k + 1) * per_program]
+            singles = [e2e.PRELUDE + semgen.DECLS + "fn main() {\n    run_case(\"0\", || { %s let v: %s = %s; assert_struct!(v, %s); });\n}\n"
+                       % (semgen.CALLER_LETS, c["type"], c["value_rust"], c.get("program_pattern", c["pattern"])) for c in group]
+            so = e2e.compile_many(singles, run=False, tag=tag + "_single")
+            e2e.cleanup(tag + "_single")
+            for c, r in zip(group, so):
+                if not r["compiled"]:
+                    raise RejectedAssertion(c, r["stderr"][-1500:])
             raise vlib.CheckError("generated program %d does not compile (generator or macro problem):\n%s"
                                   % (k, o["stderr"][-3000:]))
         res = e2e.parse_case_lines(o.get("stdout", ""))
